@@ -277,6 +277,58 @@ fn random_string(rng: &mut impl Rng) -> String {
     }
 }
 
+/// Amounts are formatted, parsed and added on many threads of a node / client at once: each thread's results must be
+/// those of its own values whatever the other threads are doing.
+fn concurrent_amounts(cx: &mut Cx) {
+    use rand::SeedableRng;
+    let threads = cx.rng.gen_range(4..=8);
+    let iters = cx.rng.gen_range(2_000..=6_000);
+    let seeds: Vec<u64> = (0..threads).map(|_| cx.rng.gen()).collect();
+    let handles: Vec<std::thread::JoinHandle<(u64, Vec<(String, String)>)>> = seeds
+        .into_iter()
+        .map(|seed| {
+            std::thread::spawn(move || {
+                let mut rng = rand::rngs::StdRng::seed_from_u64(seed);
+                let mut faults: Vec<(String, String)> = vec![];
+                let mut done = 0u64;
+                // each thread keeps returning to a few values of its own, so that a value cached by another thread is hit
+                let own: Vec<B32> = (0..3).map(|_| random_value(&mut rng)).collect();
+                for i in 0..iters {
+                    let v = if i % 2 == 0 { own[rng.gen_range(0..own.len())] } else { random_value(&mut rng) };
+                    let expected = ref_display(&v);
+                    match catch(|| to_amount(&v).to_string()) {
+                        Ok(shown) if shown == expected => {}
+                        Ok(shown) => faults.push(("concurrent:display-format".into(), format!("{} atto printed as {shown}, expected {expected}", ref_to_decimal(&v)))),
+                        Err(p) => faults.push(("concurrent:display-panic".into(), p)),
+                    }
+                    match catch(|| AttoTokens::from_str(&expected)) {
+                        Ok(Ok(a)) if from_amount(a) == v => {}
+                        Ok(other) => faults.push(("concurrent:parse-of-display".into(), format!("{expected} parsed as {other:?}"))),
+                        Err(p) => faults.push(("concurrent:parse-panic".into(), p)),
+                    }
+                    done += 2;
+                    if faults.len() > 20 {
+                        break;
+                    }
+                }
+                (done, faults)
+            })
+        })
+        .collect();
+    for h in handles {
+        match h.join() {
+            Ok((done, faults)) => {
+                cx.count_n("concurrent-format-and-parse", done);
+                for (sig, detail) in faults.into_iter().take(3) {
+                    cx.violation(sig, detail, json!({"threads": threads, "iterations": iters}));
+                }
+            }
+            Err(_) => cx.violation("concurrent:display-panic", "a formatting thread died".to_string(), json!({"threads": threads})),
+        }
+    }
+    cx.count("cases-with-concurrent-threads");
+}
+
 impl Check for C16 {
     fn id(&self) -> &'static str {
         "C16"
@@ -285,6 +337,7 @@ impl Check for C16 {
         "each case = 200 amounts (special: 0, 10^k(+-1), 2^k(+-1), 2^256-1; random magnitudes; sparse fractions) judged for Display form and parse(display)==value, \
          400 generated strings (16 classes: plain, fractional, at/over the 2^256 limit, >18 fraction digits, foreign characters, radix prefixes, underscores, multiple dots, leading zeros, canonical forms, random ASCII) \
          classified MUST-ACCEPT(value)/MUST-REJECT/DONT-CARE from the statement and judged against FromStr, and 100 pairs judged for checked_add/checked_sub against a byte-array reference. \
+         One case in 64 first runs 4-8 threads that format and parse different amounts at the same time (each thread judged against the reference for its own values). \
          distinct_nontrivial counts distinct values with a non-zero fraction or >= 2^64, distinct strings outside the plain-digits class that have a definite expectation, and distinct pairs whose sum/difference crosses 2^64 or over/underflows."
             .into()
     }
@@ -309,6 +362,9 @@ impl Check for C16 {
         if tier == Tier::Thorough { Some((vec!["amount"], 8, 500)) } else { None }
     }
     fn run_case(&self, cx: &mut Cx) {
+        if cx.index % 64 == 7 {
+            concurrent_amounts(cx);
+        }
         let specials = special_values();
         // ---- values
         for i in 0..200 {
